@@ -76,7 +76,7 @@ def drawOrig (m : Multi) (force : Bool) (extra : Option (List Line)) (now : Nat)
   let lines := extra.getD [] ++ m.orphan ++ m.ordering.flatMap m.memberLines
   let ds : DrawState := { m.target.ds with lines := lines, alignment := m.alignment }
   let (ops, llc) := drawToTerm m.target.fx ds m.target.W m.target.H m.target.llc
-  let m := { m with target := { m.target with ds := ds, llc := llc }, orphan := [] }
+  let m := { m with target := { m.target with ds := ds.after m.target.fx m.target.W m.target.H m.target.llc, llc := llc }, orphan := [] }
   let m := reap.foldl removeIdx m
   let m := if extra.isNone then { m with target := { m.target with llc := m.target.llc - adjust } } else m
   (m, ops)
@@ -95,7 +95,7 @@ def drawFixed (m : Multi) (force : Bool) (extra : Option (List Line)) (now : Nat
   let lines := extra.getD [] ++ m.orphan ++ m.ordering.flatMap m.memberLines
   let ds : DrawState := { m.target.ds with lines := lines, alignment := m.alignment }
   let (ops, llc) := drawToTerm m.target.fx ds m.target.W m.target.H m.target.llc
-  let m := { m with target := { m.target with ds := ds, llc := llc }, orphan := [] }
+  let m := { m with target := { m.target with ds := ds.after m.target.fx m.target.W m.target.H m.target.llc, llc := llc }, orphan := [] }
   let m := reap.foldl removeIdx m
   let kept := if m.target.fx.fkept then min m.target.llc adjust else adjust
   let m := if !hasText then { m with z := m.z + kept, target := { m.target with llc := m.target.llc - adjust } } else m
@@ -112,7 +112,7 @@ def clear (m : Multi) : Multi × List TOp :=
   let tt := { m.target with llc := m.target.llc + m.z }
   let ds := { tt.ds with lines := [], alignment := if tt.fx.f22 then .top else tt.ds.alignment }
   let (ops, llc) := drawToTerm tt.fx ds tt.W tt.H tt.llc
-  ({ m with z := 0, stale := true, target := { tt with ds := ds, llc := llc } }, ops)
+  ({ m with z := 0, stale := true, target := { tt with ds := ds.after tt.fx tt.W tt.H tt.llc, llc := llc } }, ops)
 
 def suspend (m : Multi) (out : List Text) (now : Nat) : Multi × List TOp :=
   let (m, ops1) := m.clear
